@@ -176,16 +176,24 @@ def divisor_zero_everywhere(h, envs):
     return False
 
 
-def power_bomb(h):
+def power_bomb(h, astronomical_only=False):
     """A reference-free power whose value is astronomically large (1234567890123456789 ** 1e18, 10 ** (10 ** 10)):
-    hpl's constant folding would compute it with Python big integers and not come back.  Such inputs contain an
-    undefined constant sub-expression in the modelled semantics and are not handed to the rewriting functions."""
+    before repository commit 893391d hpl's constant folding computed it with Python big integers and did not come
+    back.  Such inputs contain an undefined constant sub-expression in the modelled semantics (overflow) and are not
+    handed to the rewriting functions.  With astronomical_only (C14) integer powers of up to ~10^6 bits are let
+    through: folding them is quick, and they are what shows a regression of that repair."""
     if getattr(h, 'is_predicate', False):
         h = h.condition
     for x in E._walk(h):
         if type(x).__name__ == 'HplBinaryOperator' and x.operator.token == '**' and E.is_reference_free(x):
             st, v = E.run(E.compile_expr(x, True), E.Env())
             if st != 'ok' and ('too large' in str(v) or 'overflow' in str(v).lower() or 'recursion' in str(v)):
+                if astronomical_only and 'too large' in str(v):
+                    sa, a = E.run(E.compile_expr(x.operand1, True), E.Env())
+                    sb, b = E.run(E.compile_expr(x.operand2, True), E.Env())
+                    if sa == 'ok' and sb == 'ok' and isinstance(a, int) and isinstance(b, int) \
+                            and b * max(1, abs(a).bit_length()) <= 1000000:
+                        continue
                 return True
     return False
 
